@@ -41,10 +41,11 @@ Section Parse.
   (* what the scanner needs of the line that follows an entry *)
   Definition R_ok (r0 : str) : Prop :=
     underline_re r0 = false /\
-    (is_some (frame_re C (strip C r0)) = true \/ starts_space r0 = false).
+    (is_some (frame_re C (strip C r0)) || is_some (repeat_re C (strip C r0)) = true \/ starts_space r0 = false).
   (* ... and of the first line of the exception text *)
   Definition E_ok (r0 : str) : Prop :=
-    underline_re r0 = false /\ starts_space r0 = false /\ frame_re C (strip C r0) = None.
+    underline_re r0 = false /\ starts_space r0 = false /\ frame_re C (strip C r0) = None /\
+    repeat_re C (strip C r0) = None.
 
   Lemma E_ok_R_ok r0 : E_ok r0 -> R_ok r0.
   Proof. intros [H1 [H2 _]]. split; [exact H1|right; exact H2]. Qed.
@@ -58,67 +59,100 @@ Section Parse.
   Qed.
 
   Lemma src_ok_inv c s : src_ok C (c :: s) = true ->
-    stripped C (c :: s) = true /\ no_break C (c :: s) = true /\ startswith L_file (c :: s) = false.
+    stripped C (c :: s) = true /\ no_break C (c :: s) = true /\ startswith L_file (c :: s) = false /\
+    startswith L_prevline (c :: s) = false.
   Proof.
-    unfold src_ok. cbn [is_nil orb]. intro H. apply andb_true_iff in H as [H H3].
-    apply andb_true_iff in H as [H1 H2]. apply negb_true_iff in H3. repeat split; assumption.
+    unfold src_ok. cbn [is_nil orb]. intro H. apply andb_true_iff in H as [H H4]. apply andb_true_iff in H as [H H3].
+    apply andb_true_iff in H as [H1 H2]. apply negb_true_iff in H3, H4. repeat split; assumption.
+  Qed.
+
+  Lemma frame_line_facts p n g s :
+    frame_ok C (mkFrame p n (Some g) s) = true ->
+    frame_re C (strip C (frame_line (mkFrame p n (Some g) s))) = Some (p, n, Some g) /\
+    repeat_re C (strip C (frame_line (mkFrame p n (Some g) s))) = None.
+  Proof.
+    intro H. apply frame_ok_inv in H as [Hp [Hn [Hg _]]].
+    unfold frame_line. cbn [f_path f_lineno func_of f_func].
+    rewrite (strip_frame_line C OK p n g Hg). split; [exact (frame_re_line C OK p n g Hp Hn Hg)|].
+    apply repeat_re_not. reflexivity.
   Qed.
 
   Lemma frame_line_R_ok p n g s :
     frame_ok C (mkFrame p n (Some g) s) = true -> R_ok (frame_line (mkFrame p n (Some g) s)).
   Proof.
-    intro H. apply frame_ok_inv in H as [Hp [Hn [Hg _]]].
-    unfold frame_line. cbn [f_path f_lineno func_of f_func]. split.
-    - unfold L_file2, L_file. cbn [app].
+    intro H. destruct (frame_line_facts p n g s H) as [F _]. split.
+    - unfold frame_line, L_file2, L_file. cbn [app f_path].
       exact (underline_false [32; 32] 70 _ eq_refl eq_refl eq_refl).
-    - left. rewrite (strip_frame_line C OK p n g Hg), (frame_re_line C OK p n g Hp Hn Hg). reflexivity.
+    - left. rewrite F. reflexivity.
   Qed.
 
-  Lemma scan_frame fre l nl rest2 p n fn :
+  Lemma repeat_line_R_ok n : R_ok (repeat_line n).
+  Proof.
+    split; [apply underline_repeat_line|]. left.
+    rewrite (strip_repeat_line C OK), (repeat_re_line C OK). apply orb_true_r.
+  Qed.
+
+  Definition no_repeat_here (prev : option frame) (l : str) : Prop :=
+    prev = None \/ repeat_re C (strip C l) = None.
+
+  Lemma scan_frame fre prev l nl rest2 p n fn :
+    no_repeat_here prev l ->
     fre (strip C l) = Some (p, n, fn) ->
-    scan C fre (l :: nl :: rest2) =
-    if is_some (fre (strip C nl)) || negb (starts_space nl) then
-      if underline_re nl then cons_frame (mkFrame p n fn []) (scan C fre rest2)
-      else cons_frame (mkFrame p n fn []) (scan C fre (nl :: rest2))
+    scan C fre prev (l :: nl :: rest2) =
+    if is_some (fre (strip C nl)) || is_some (repeat_re C (strip C nl)) || negb (starts_space nl) then
+      if underline_re nl then cons_frame (mkFrame p n fn []) (scan C fre (Some (mkFrame p n fn [])) rest2)
+      else cons_frame (mkFrame p n fn []) (scan C fre (Some (mkFrame p n fn [])) (nl :: rest2))
     else match rest2 with
          | [] => Raise IndexError
          | u :: rest3 =>
-             if underline_re u then cons_frame (mkFrame p n fn (strip C nl)) (scan C fre rest3)
-             else cons_frame (mkFrame p n fn (strip C nl)) (scan C fre rest2)
+             if underline_re u
+             then cons_frame (mkFrame p n fn (strip C nl)) (scan C fre (Some (mkFrame p n fn (strip C nl))) rest3)
+             else cons_frame (mkFrame p n fn (strip C nl)) (scan C fre (Some (mkFrame p n fn (strip C nl))) rest2)
          end.
-  Proof. intro H. cbn [scan]. rewrite H. reflexivity. Qed.
+  Proof.
+    intros Hp H. cbn [scan]. destruct Hp as [->|Hp]; [|rewrite Hp; destruct prev]; rewrite H; reflexivity.
+  Qed.
 
-  Lemma scan_stop fre l rest : fre (strip C l) = None -> scan C fre (l :: rest) = Ok ([], l :: rest).
+  Lemma scan_stop fre prev l rest :
+    no_repeat_here prev l -> fre (strip C l) = None -> scan C fre prev (l :: rest) = Ok ([], l :: rest).
+  Proof. intros Hp H. cbn [scan]. destruct Hp as [->|Hp]; [|rewrite Hp; destruct prev]; rewrite H; reflexivity. Qed.
+
+  Lemma scan_repeat fre pf l rest d :
+    repeat_re C (strip C l) = Some d ->
+    scan C fre (Some pf) (l :: rest) =
+    match scan C fre (Some pf) rest with
+    | Ok (fs, r) => Ok (repeat pf (N.to_nat (int_of C d)) ++ fs, r)
+    | Raise e => Raise e
+    end.
   Proof. intro H. cbn [scan]. rewrite H. reflexivity. Qed.
 
   (* one entry: frame line, optional source line, optional marker line *)
-  Lemma scan_entry p n g s m r0 R' :
+  Lemma scan_entry prev p n g s m r0 R' :
     frame_ok C (mkFrame p n (Some g) s) = true ->
     match m with Some mk => marker_ok mk = true | None => True end ->
     R_ok r0 ->
-    scan C (frame_re C) (entry_lines_m (mkFrame p n (Some g) s, m) ++ r0 :: R') =
-    cons_frame (mkFrame p n (Some g) s) (scan C (frame_re C) (r0 :: R')).
+    scan C (frame_re C) prev (entry_lines_m (mkFrame p n (Some g) s, m) ++ r0 :: R') =
+    cons_frame (mkFrame p n (Some g) s) (scan C (frame_re C) (Some (mkFrame p n (Some g) s)) (r0 :: R')).
   Proof.
     intros Hf Hm [Hu Hr]. pose proof Hf as Hf'. apply frame_ok_inv in Hf' as [Hp [Hn [Hg Hs]]].
-    assert (FL : frame_re C (strip C (frame_line (mkFrame p n (Some g) s))) = Some (p, n, Some g)).
-    { unfold frame_line. cbn [f_path f_lineno func_of f_func].
-      rewrite (strip_frame_line C OK p n g Hg). exact (frame_re_line C OK p n g Hp Hn Hg). }
+    destruct (frame_line_facts p n g s Hf) as [FL FR].
+    assert (NR : no_repeat_here prev (frame_line (mkFrame p n (Some g) s))) by (right; exact FR).
     unfold entry_lines_m, src_lines. cbn [f_src].
     destruct s as [|c s].
     - (* no source line *)
       cbn [is_nil]. replace (match m with Some _ => [] | None => [] end) with (@nil str) by (destruct m; reflexivity).
-      cbn [app]. rewrite (scan_frame _ _ _ _ _ _ _ FL).
-      assert (Cnd : is_some (frame_re C (strip C r0)) || negb (starts_space r0) = true).
+      cbn [app]. rewrite (scan_frame _ _ _ _ _ _ _ _ NR FL).
+      assert (Cnd : is_some (frame_re C (strip C r0)) || is_some (repeat_re C (strip C r0)) || negb (starts_space r0) = true).
       { destruct Hr as [Hr|Hr]; rewrite Hr; [reflexivity|apply orb_true_r]. }
       rewrite Cnd, Hu. reflexivity.
     - (* source line *)
-      apply src_ok_inv in Hs as [Hst [Hsb Hsf]].
+      apply src_ok_inv in Hs as [Hst [Hsb [Hsf Hsr]]].
       assert (SL : strip C (L_ind4 ++ c :: s) = c :: s) by (apply (strip_indented C OK); [discriminate|exact Hst]).
       cbn [is_nil]. destruct m as [mk|]; cbn [app].
-      + rewrite (scan_frame _ _ _ _ _ _ _ FL). rewrite SL, (frame_re_not_file C _ Hsf).
+      + rewrite (scan_frame _ _ _ _ _ _ _ _ NR FL). rewrite SL, (frame_re_not_file C _ Hsf), (repeat_re_not C _ Hsr).
         cbn [is_some starts_space L_ind4 app N.eqb Pos.eqb orb negb].
         rewrite (underline_marker mk Hm). reflexivity.
-      + rewrite (scan_frame _ _ _ _ _ _ _ FL). rewrite SL, (frame_re_not_file C _ Hsf).
+      + rewrite (scan_frame _ _ _ _ _ _ _ _ NR FL). rewrite SL, (frame_re_not_file C _ Hsf), (repeat_re_not C _ Hsr).
         cbn [is_some starts_space L_ind4 app N.eqb Pos.eqb orb negb].
         rewrite Hu. reflexivity.
   Qed.
@@ -126,20 +160,20 @@ Section Parse.
   Definition fm_ok (fm : frame * option str) : Prop :=
     frame_ok C (fst fm) = true /\ match snd fm with Some mk => marker_ok mk = true | None => True end.
 
-  Lemma scan_entries : forall fms r0 R',
+  Lemma scan_entries : forall fms prev r0 R',
     Forall fm_ok fms -> E_ok r0 ->
-    scan C (frame_re C) (flat_map entry_lines_m fms ++ r0 :: R') = Ok (map fst fms, r0 :: R').
+    scan C (frame_re C) prev (flat_map entry_lines_m fms ++ r0 :: R') = Ok (map fst fms, r0 :: R').
   Proof.
-    induction fms as [|[f m] fms IH]; intros r0 R' Hall HE.
-    - cbn [flat_map app map]. destruct HE as [_ [_ HE]]. apply scan_stop. exact HE.
+    induction fms as [|[f m] fms IH]; intros prev r0 R' Hall HE.
+    - cbn [flat_map app map]. destruct HE as [_ [_ [HE HR]]]. apply scan_stop; [right; exact HR|exact HE].
     - inversion Hall as [|x xs [Hf Hm] Hrest]; subst. cbn [fst snd] in Hf, Hm.
       destruct f as [p n [g|] s].
       2:{ apply frame_ok_inv in Hf as [_ [_ [Hg _]]]. discriminate. }
       cbn [flat_map map fst]. rewrite <- app_assoc.
-      specialize (IH r0 R' Hrest HE).
+      pose proof (IH (Some (mkFrame p n (Some g) s)) r0 R' Hrest HE) as IH'.
       destruct fms as [|[f2 m2] fms2].
-      + cbn [flat_map app] in *. rewrite (scan_entry p n g s m r0 R' Hf Hm (E_ok_R_ok r0 HE)).
-        rewrite IH. reflexivity.
+      + cbn [flat_map app] in *. rewrite (scan_entry prev p n g s m r0 R' Hf Hm (E_ok_R_ok r0 HE)).
+        rewrite IH'. reflexivity.
       + (* the next line is the next entry's frame line *)
         inversion Hrest as [|x xs [Hf2 _] _]; subst. cbn [fst] in Hf2.
         destruct f2 as [p2 n2 [g2|] s2].
@@ -148,8 +182,8 @@ Section Parse.
         assert (Sh : exists X, flat_map entry_lines_m ((f2, m2) :: fms2) ++ r0 :: R' = frame_line f2 :: X).
         { cbn [flat_map]. unfold entry_lines_m at 1. cbn [app]. eexists. reflexivity. }
         destruct Sh as [X EX]. rewrite EX in *.
-        rewrite (scan_entry p n g s m (frame_line f2) X Hf Hm).
-        * rewrite IH. reflexivity.
+        rewrite (scan_entry prev p n g s m (frame_line f2) X Hf Hm).
+        * rewrite IH'. reflexivity.
         * subst f2. apply frame_line_R_ok. exact Hf2.
   Qed.
 
@@ -187,17 +221,13 @@ Section Parse.
   Qed.
 
   Lemma not_file_line ty l0 :
-    ty <> [] -> no_space C ty = true -> (l0 = [] \/ exists l', l0 = 58 :: l') ->
-    startswith L_file (ty ++ l0) = false.
+    no_space C ty = true -> (l0 = [] \/ exists l', l0 = 58 :: l') ->
+    startswith L_file (ty ++ l0) = false /\ startswith L_prevline (ty ++ l0) = false.
   Proof.
-    intros Hne Hns Hl. apply (no_space_no_32 C OK) in Hns.
-    unfold L_file.
-    destruct ty as [|a [|b [|c [|d [|e r]]]]]; [contradiction| | | | |];
-      cbn [forallb] in Hns; split_andb;
-      try (destruct Hl as [->|[l' ->]]; cbn [app startswith N.eqb Pos.eqb]; rewrite ?andb_false_r; reflexivity).
-    cbn [app startswith]. rewrite (N.eqb_sym 32 e).
-    match goal with H : (e =? 32) = false |- _ => rewrite H end.
-    cbn [andb]. rewrite ?andb_false_r. reflexivity.
+    intros Hns Hl. apply (no_space_no_32 C OK) in Hns. split.
+    - exact (no_prefix_line [70;105;108;101] [34] eq_refl ty l0 Hns Hl).
+    - exact (no_prefix_line [91;80;114;101;118;105;111;117;115]
+               [108;105;110;101;32;114;101;112;101;97;116;101;100;32] eq_refl ty l0 Hns Hl).
   Qed.
 
   Lemma exc_first_E_ok ty l0 :
@@ -213,18 +243,19 @@ Section Parse.
     - destruct ty as [|x ty]; [contradiction|]. cbn [app starts_space].
       unfold no_space in Hns. cbn [forallb] in Hns. apply andb_true_iff in Hns as [Hx _].
       apply negb_true_iff in Hx. exact (nsp_not_32 C OK x Hx).
-    - apply frame_re_not_file.
-      destruct (startswith L_file (strip C (ty ++ l0))) eqn:S; [|reflexivity].
-      (* strip only removes characters: the stripped line is a prefix of a suffix; here a prefix *)
-      exfalso. destruct ty as [|x ty]; [contradiction|].
+    - (* strip only removes characters: the stripped line is a prefix of the line *)
+      destruct ty as [|x ty]; [contradiction|].
       assert (Hx : is_sp C x = false).
       { unfold no_space in Hns. cbn [forallb] in Hns. apply andb_true_iff in Hns as [Hx _].
         apply negb_true_iff in Hx. exact Hx. }
-      unfold strip in S. cbn [app] in S. rewrite (lstrip_nonspace C x _ Hx) in S.
-      destruct (rstrip_spec C (x :: ty ++ l0)) as [w [Ew _]].
-      apply (startswith_app_r _ _ w) in S. rewrite <- Ew in S.
-      change (x :: ty ++ l0) with ((x :: ty) ++ l0) in S.
-      rewrite (not_file_line (x :: ty) l0 Hne Hns Hl) in S. discriminate.
+      destruct (not_file_line (x :: ty) l0 Hns Hl) as [NF NP].
+      assert (PRE : forall pat, startswith pat ((x :: ty) ++ l0) = false ->
+                                startswith pat (strip C ((x :: ty) ++ l0)) = false).
+      { intros pat Hpat. destruct (startswith pat (strip C ((x :: ty) ++ l0))) eqn:S; [|reflexivity].
+        unfold strip in S. cbn [app] in S. rewrite (lstrip_nonspace C x _ Hx) in S.
+        destruct (rstrip_spec C (x :: ty ++ l0)) as [w [Ew _]].
+        apply (startswith_app_r _ _ w) in S. rewrite <- Ew in S. cbn [app] in Hpat. congruence. }
+      split; [apply frame_re_not_file; apply PRE; exact NF|apply repeat_re_not; apply PRE; exact NP].
   Qed.
 
   (* ---- line structure of the rendered text ------------------------------------------------------ *)
@@ -316,33 +347,20 @@ Section Parse.
   Qed.
 
   (* ---- from_string on the rendered text -------------------------------------------------------------- *)
-  Theorem parse_marked (T : tb) (ms : list (option str)) :
-    wf C T = true -> markers_ok ms = true -> length ms = length (t_frames T) ->
-    from_string C (marked_text T ms) = Ok T.
+  (* the text as a whole: any body of entry lines that the scanner reads back as [frames] *)
+  Theorem parse_lines (body : list str) (frames : list frame) (ty msg : str) :
+    Forall (fun l => no_break C l = true) body ->
+    (forall r0 R', E_ok r0 -> scan C (frame_re C) None (body ++ r0 :: R') = Ok (frames, r0 :: R')) ->
+    type_ok C ty = true -> msg_ok C ty msg = true ->
+    from_string C (join NL (L_header :: body ++ [exc_text ty msg])) = Ok (mkTb frames ty msg).
   Proof.
-    intros Hwf Hms Hlen. destruct T as [frames ty msg]. unfold wf in Hwf. cbn [t_frames t_type t_msg] in *.
-    apply andb_true_iff in Hwf as [Hwf Hmsg]. apply andb_true_iff in Hwf as [Hfr Hty].
-    set (fms := combine frames ms).
-    assert (Hfms : Forall fm_ok fms).
-    { subst fms. clear - Hfr Hms Hlen. revert ms Hms Hlen.
-      induction frames as [|f frames IH]; intros ms Hms Hlen; [constructor|].
-      destruct ms as [|m ms]; [discriminate|]. cbn [combine].
-      cbn [forallb] in Hfr. apply andb_true_iff in Hfr as [Hf Hfr].
-      unfold markers_ok in Hms. cbn [forallb] in Hms. apply andb_true_iff in Hms as [Hm Hms].
-      constructor.
-      - split; [exact Hf|]. cbn [snd]. destruct m; [exact Hm|exact I].
-      - apply IH; [exact Hfr|exact Hms|]. cbn [length] in Hlen. congruence. }
-    assert (Hmap : map fst fms = frames).
-    { subst fms. clear - Hlen. revert ms Hlen. induction frames as [|f frames IH]; intros ms Hlen; [reflexivity|].
-      destruct ms as [|m ms]; [discriminate|]. cbn [combine map fst]. f_equal. apply IH. cbn [length] in Hlen. congruence. }
+    intros Hbody Hscan Hty Hmsg.
     destruct (exc_lines ty msg Hty) as [l0 [ls [EL Hl0]]].
     pose proof (exc_first_E_ok ty l0 Hty Hl0) as HE.
-    set (body := flat_map entry_lines_m fms).
     (* the text, line by line *)
     set (EX := split_nl (exc_text ty msg)) in *.
-    assert (TXT : marked_text (mkTb frames ty msg) ms = join NL (L_header :: body ++ EX)).
-    { unfold marked_text, marked_lines. cbn [t_frames t_type t_msg]. fold fms. fold body.
-      rewrite <- (join_split_nl (exc_text ty msg)) at 1. fold EX.
+    assert (TXT : join NL (L_header :: body ++ [exc_text ty msg]) = join NL (L_header :: body ++ EX)).
+    { rewrite <- (join_split_nl (exc_text ty msg)) at 1. fold EX.
       change (L_header :: body ++ [join [10] EX]) with ((L_header :: body) ++ [join NL EX]).
       rewrite join_app_last by apply split_nl_nonnil. reflexivity. }
     assert (EXne : EX <> []) by apply split_nl_nonnil.
@@ -352,7 +370,7 @@ Section Parse.
     assert (LINES : splitlines C (join NL (L_header :: body ++ EX)) = L_header :: body ++ EX).
     { apply (splitlines_join C (br_10 C OK)); [discriminate| |].
       - constructor; [apply (no_break_ascii C OK); reflexivity|].
-        apply Forall_app. split; [apply body_no_break; exact Hfms|].
+        apply Forall_app. split; [exact Hbody|].
         exact (split_nl_chars (fun c => negb (is_br C c)) _ (exc_text_chars ty msg Hty Hmsg)).
       - intro Hc. apply (exc_text_last ty msg Hty Hmsg). etransitivity; [symmetry; exact LAST|exact Hc]. }
     unfold from_string. rewrite TXT.
@@ -365,11 +383,43 @@ Section Parse.
     2:{ apply msg_ok_inv in Hmsg as [_ [_ Hi]].
         exact (eq_ind_r (fun z => ignored_line z = false) Hi LAST). }
     rewrite (strip_header C OK). change M_header with L_header. rewrite str_eqb_refl.
-    unfold body. rewrite EL. rewrite (scan_entries fms (ty ++ l0) ls Hfms HE).
-    rewrite Hmap, <- EL. change M_nl with [10]. fold EX. unfold EX. rewrite join_split_nl.
+    rewrite EL. rewrite (Hscan (ty ++ l0) ls HE).
+    rewrite <- EL. change M_nl with [10]. fold EX. unfold EX. rewrite join_split_nl.
     apply type_ok_inv in Hty as [_ [Hns _]]. apply (no_space_no_32 C OK) in Hns.
     unfold exc_text. change M_colon with [58; 32]. destruct msg as [|m msg]; cbn [is_nil].
     - rewrite (partition_none ty Hns). reflexivity.
     - unfold L_colon. cbn [app]. rewrite (partition_colon ty (m :: msg) Hns). reflexivity.
+  Qed.
+
+  Lemma wf_inv frames ty msg : wf C (mkTb frames ty msg) = true ->
+    Forall (fun f => frame_ok C f = true) frames /\ type_ok C ty = true /\ msg_ok C ty msg = true.
+  Proof.
+    unfold wf. cbn [t_frames t_type t_msg]. intro H.
+    apply andb_true_iff in H as [H Hmsg]. apply andb_true_iff in H as [Hfr Hty].
+    repeat split; try assumption. apply Forall_forall. rewrite forallb_forall in Hfr. exact Hfr.
+  Qed.
+
+  Theorem parse_marked (T : tb) (ms : list (option str)) :
+    wf C T = true -> markers_ok ms = true -> length ms = length (t_frames T) ->
+    from_string C (marked_text T ms) = Ok T.
+  Proof.
+    intros Hwf Hms Hlen. destruct T as [frames ty msg]. apply wf_inv in Hwf as [Hfr [Hty Hmsg]].
+    cbn [t_frames t_type t_msg] in *.
+    set (fms := combine frames ms).
+    assert (Hfms : Forall fm_ok fms).
+    { subst fms. clear - Hfr Hms Hlen. revert ms Hms Hlen.
+      induction frames as [|f frames IH]; intros ms Hms Hlen; [constructor|].
+      destruct ms as [|m ms]; [discriminate|]. cbn [combine].
+      inversion Hfr as [|x xs Hf Hfr']; subst.
+      unfold markers_ok in Hms. cbn [forallb] in Hms. apply andb_true_iff in Hms as [Hm Hms].
+      constructor.
+      - split; [exact Hf|]. cbn [snd]. destruct m; [exact Hm|exact I].
+      - apply IH; [exact Hfr'|exact Hms|]. cbn [length] in Hlen. congruence. }
+    assert (Hmap : map fst fms = frames).
+    { subst fms. clear - Hlen. revert ms Hlen. induction frames as [|f frames IH]; intros ms Hlen; [reflexivity|].
+      destruct ms as [|m ms]; [discriminate|]. cbn [combine map fst]. f_equal. apply IH. cbn [length] in Hlen. congruence. }
+    unfold marked_text, marked_lines. cbn [t_frames t_type t_msg]. fold fms.
+    apply parse_lines; [apply body_no_break; exact Hfms| |exact Hty|exact Hmsg].
+    intros r0 R' HE. rewrite (scan_entries fms None r0 R' Hfms HE), Hmap. reflexivity.
   Qed.
 End Parse.
